@@ -711,6 +711,9 @@ func (ctx Ctx) integerConversion(s ast.Node, x ast.Expr, width int) coq.Expr {
 }
 
 func (ctx Ctx) copyExpr(n ast.Node, dst ast.Expr, src ast.Expr) coq.Expr {
+	if _, ok := ctx.typeOf(src).Underlying().(*types.Slice); !ok {
+		ctx.unsupported(n, "copy from a value of type %v (only slices can be copied)", ctx.typeOf(src))
+	}
 	e := sliceElem(ctx.typeOf(dst))
 	return coq.NewCallExpr(coq.GallinaIdent("SliceCopy"),
 		ctx.coqTypeOfType(n, e),
@@ -745,6 +748,9 @@ func (ctx Ctx) callExpr(s *ast.CallExpr) coq.Expr {
 				ctx.expr(s.Args[1]))
 		}
 		// append(s1, s2...)
+		if _, ok := ctx.typeOf(s.Args[1]).Underlying().(*types.Slice); !ok {
+			ctx.unsupported(s, "append of a value of type %v... (only slices can be appended)", ctx.typeOf(s.Args[1]))
+		}
 		return coq.NewCallExpr(coq.GallinaIdent("SliceAppendSlice"),
 			ctx.coqTypeOfType(s, elemTy),
 			ctx.expr(s.Args[0]),
